@@ -17,7 +17,16 @@ type garbage struct {
 
 // mutate a well-formed condition into a non-sentence
 func mutateCond(r *Rng, valid string, other string) garbage {
-	switch r.Intn(9) {
+	switch r.Intn(11) {
+	case 9, 10:
+		// an operand where a condition is required, next to a well-formed condition: the verdict must not
+		// depend on whether the item makes the well-formed side decide the connective
+		bad := pick(r, []string{"NOT b", "b", "(b AND n1)", "size(b)", ":v0", "NOT (b)", "b AND n1", "NOT n1", "flag", "(s1)", "NOT :v1"})
+		conn := pick(r, []string{" OR ", " AND "})
+		if r.Chance(50) {
+			return garbage{"(" + valid + ")" + conn + bad, "operand-as-condition", true}
+		}
+		return garbage{bad + conn + "(" + valid + ")", "operand-as-condition", true}
 	case 0:
 		return garbage{valid + " " + pick(r, []string{")", "AND", "OR", "zz", ":v0", "= :v0", "(", "NOT", ",", "]", "BETWEEN"}), "trailing", true}
 	case 1:
